@@ -1,7 +1,7 @@
 (* C07 — inclusion on BDD-encoded tree automata is exact; unimplemented selections throw. Statements only. *)
 From Coq Require Import List NArith Bool.
 Import ListNotations.
-From V Require Import Sem Prod Incl TrimDefs TrimProofs Lang InclDefs InclProofs DispatchTable AntichainUp BuUpUnion DownIncl DownInclCacheDefs DownInclCacheProofs.
+From V Require Import Sem Prod Incl TrimDefs TrimProofs Lang InclDefs InclProofs DispatchTable AntichainUp BuUpUnion DownIncl DownInclCacheDefs DownInclCacheProofs DownInclOptDefs DownInclOptProofs.
 
 (* the verdict every implemented selection must report is exact, and equals the explicit encoding's (same function) *)
 Theorem C07_exact : forall v A B, incl_model v A B = true <-> (forall t, accepts A t -> accepts B t).
@@ -39,6 +39,12 @@ Proof. exact downc_scoped_partial_correct. Qed.
 Theorem C07_down_cache_shared_refuted : downc_incl true trapA trapB 30 = Some true /\ ~ lincl trapA trapB /\ downc_incl false trapA trapB 30 = Some false.
 Proof. exact downc_shared_refuted. Qed.
 
+(* the "opt" selections: implication cache with antecedents and consequents (shared template OptDownwardInclusionFunctor) *)
+Theorem C07_down_opt_partial_correct : forall A B fuel b, downo_incl false A B fuel = Some b -> (b = true <-> forall t, accepts A t -> accepts B t).
+Proof. exact downo_partial_correct. Qed.
+Theorem C07_down_opt_careless_refuted : downo_incl true trapA trapB 30 = Some true /\ ~ lincl trapA trapB /\ downo_incl false trapA trapB 30 = Some false.
+Proof. exact downo_careless_refuted. Qed.
+
 Print Assumptions C07_exact.
 Print Assumptions C07_up_antichain_exact.
 Print Assumptions C07_bu_up_union_refuted.
@@ -51,3 +57,5 @@ Print Assumptions C07_dispatch_expl.
 Print Assumptions C07_dispatch_range.
 Print Assumptions C07_down_cache_scoped_partial_correct.
 Print Assumptions C07_down_cache_shared_refuted.
+Print Assumptions C07_down_opt_partial_correct.
+Print Assumptions C07_down_opt_careless_refuted.
